@@ -1186,7 +1186,16 @@ func (c *fnCtx) loopPos(h *ssa.BasicBlock) token.Pos {
 // run translates the function body. Parameters must already be bound in c.vals.
 func (c *fnCtx) run() {
 	c.analyzeLoops()
+	// an inlined callee starts under the reach condition of its call site (set by inline); everything assumed
+	// inside it - type invariants of loaded values in particular - must stay guarded by that condition
+	entryReach := ""
+	if c.reach != nil {
+		entryReach = c.reach[c.f.Blocks[0]]
+	}
 	c.reach = map[*ssa.BasicBlock]string{}
+	if entryReach != "" {
+		c.reach[c.f.Blocks[0]] = entryReach
+	}
 	c.hout = map[*ssa.BasicBlock]*State{}
 	for _, b := range c.order {
 		c.curB = b
